@@ -29,6 +29,8 @@ def mk(sid, mode, how, postpone, debounce, stop_timeout, delay, stopsig, kids, s
         else:
             argv += ["--on-busy-update", "signal", "--stop-signal", s]
         sig = SIGNUM[s]
+    elif mode == "do-nothing" and how == "short":
+        pass        # no mode given at all: do-nothing is the documented default
     else:
         argv += ["--on-busy-update", mode]
     if postpone:
